@@ -89,7 +89,16 @@ func (e *env) monitor(ev vfs.Event) {
 }
 
 // addressed computes which repositories a request addresses, the way any router would see it.
-func addressed(rq vh.Req) []string {
+func reserved(name string) bool {
+	for _, c := range strings.Split(name, "/") {
+		if c == "index.json" || c == "oci-layout" || c == "blobs" {
+			return true
+		}
+	}
+	return false
+}
+
+func addressed(rq vh.Req, kind vh.StoreKind) []string {
 	u, err := url.ParseRequestURI(rq.URL)
 	if err != nil {
 		return nil
@@ -98,6 +107,9 @@ func addressed(rq vh.Req) []string {
 	m := routeRE.FindStringSubmatch(p)
 	if m == nil || !repoRE.MatchString(m[1]) {
 		return nil
+	}
+	if kind == vh.Dir && reserved(m[1]) {
+		return nil // a name with a layout file name as component would live inside another repository's directory: refused before any storage access
 	}
 	out := []string{m[1]}
 	if f := u.Query().Get("from"); f != "" && repoRE.MatchString(f) && rq.Method == "POST" {
@@ -158,7 +170,7 @@ func batch(r *vh.Run, i int) {
 	u := vh.GenUniverse(rng, vh.UOpts{Tag: fmt.Sprint(i), NArtifact: 3})
 	do := func(rq vh.Req) vh.Resp {
 		e.mu.Lock()
-		e.addr = addressed(rq)
+		e.addr = addressed(rq, kind)
 		e.cur = rq.Method + " " + rq.URL
 		e.mu.Unlock()
 		r.Count("requests", 1)
@@ -333,8 +345,63 @@ func batch(r *vh.Run, i int) {
 				{Method: "GET", URL: "/v2/" + rp + "/oci-layout/tags/list"},
 				{Method: "POST", URL: "/v2/" + rp + "/_uploads/blobs/uploads/"},
 			}
+			// a repository name that would live inside another repository's blob store
+			hexOther := strings.Repeat("ab", 32)
+			for dd := range e.have[names[rng.Intn(len(names))]] {
+				if strings.HasPrefix(dd, "sha256:") {
+					hexOther = dd[7:]
+					break
+				}
+			}
+			inside := rp + "/blobs/sha256/" + hexOther
+			nb := []byte(fmt.Sprintf("nested %d %d", i, op))
+			reqs = append(reqs,
+				vh.Req{Method: "POST", URL: "/v2/" + inside + "/blobs/uploads/?digest=" + vh.DigestOf("sha256", nb), Body: nb},
+				vh.Req{Method: "POST", URL: "/v2/" + rp + "/index.json/blobs/uploads/?digest=" + vh.DigestOf("sha256", nb), Body: nb},
+				vh.Req{Method: "PUT", URL: "/v2/" + rp + "/blobs/x/manifests/latest", H: map[string]string{"Content-Type": vh.MTImage}, Body: u.Mans[0].Raw},
+			)
+			// traversal inside a manifest body: descriptors whose digest is a path
+			victim := names[rng.Intn(len(names))]
+			up := strings.Repeat("../", 2+strings.Count(rp, "/"))
+			for _, evil := range []string{"sha256:" + up + victim + "/blobs/sha256/" + hexOther, "sha256:" + up + "../secret/blobs/sha256/" + d[7:], "sha256:" + up + "../canary", "sha256:/etc/hostname", "sha256:..", "sha512:" + up + victim + "/index.json"} {
+				cfgOK := ""
+				for dd := range e.have[rp] {
+					cfgOK = dd
+					break
+				}
+				if cfgOK == "" {
+					cfgOK = evil
+				}
+				img1 := fmt.Sprintf(`{"schemaVersion":2,"mediaType":"%s","config":{"mediaType":"%s","digest":"%s","size":2},"layers":[]}`, vh.MTImage, vh.MTConfig, evil)
+				img2 := fmt.Sprintf(`{"schemaVersion":2,"mediaType":"%s","config":{"mediaType":"%s","digest":"%s","size":2},"layers":[{"mediaType":"%s","digest":"%s","size":3}]}`, vh.MTImage, vh.MTConfig, cfgOK, vh.MTLayer, evil)
+				idx := fmt.Sprintf(`{"schemaVersion":2,"mediaType":"%s","manifests":[{"mediaType":"%s","digest":"%s","size":3}]}`, vh.MTIndex, vh.MTImage, evil)
+				sub := fmt.Sprintf(`{"schemaVersion":2,"mediaType":"%s","config":{"mediaType":"%s","digest":"%s","size":2},"layers":[],"subject":{"mediaType":"%s","digest":"%s","size":3}}`, vh.MTImage, vh.MTConfig, cfgOK, vh.MTImage, evil)
+				for bi, body := range []string{img1, img2, idx, sub} {
+					mt := vh.MTImage
+					if bi == 2 {
+						mt = vh.MTIndex
+					}
+					reqs = append(reqs, vh.Req{Method: "PUT", URL: "/v2/" + rp + "/manifests/evil", H: map[string]string{"Content-Type": mt}, Body: []byte(body)})
+				}
+			}
 			rq := reqs[rng.Intn(len(reqs))]
 			rs := do(rq)
+			if rq.Method == "PUT" && strings.HasSuffix(rq.URL, "/manifests/evil") {
+				r.Count("hostile_manifest_bodies", 1)
+				if rs.Status == 201 && !strings.Contains(string(rq.Body), `"subject"`) {
+					viol("escape:manifest-accepted", fmt.Sprintf("a manifest whose descriptor digest is a path was accepted: %.300s", rq.Body))
+					ok = false
+				}
+				if rs.Status == 201 {
+					// whatever was accepted, reading it back must not serve foreign content
+					g := do(vh.Req{Method: "GET", URL: "/v2/" + rp + "/manifests/evil", H: map[string]string{"Accept": vh.MTImage}})
+					if g.Status == 200 && (strings.Contains(string(g.Body), "top secret") || string(g.Body) == "canary") {
+						viol("escape:content", "reading back a manifest with a path as digest served content from outside the root")
+						ok = false
+					}
+					do(vh.Req{Method: "DELETE", URL: "/v2/" + rp + "/manifests/evil"})
+				}
+			}
 			r.Count("hostile_requests", 1)
 			r.Distinct("hostile_templates", strings.ReplaceAll(strings.ReplaceAll(rq.Method+" "+rq.URL, rp, "R"), d[7:], "D"))
 			e.trace = append(e.trace, fmt.Sprintf("%s %s = %d", rq.Method, rq.URL, rs.Status))
